@@ -24,4 +24,60 @@ def validate(ctx, events, describe, prefix_map=None, per_shard_min=40):
     ctx.traces += len(events)
     for ix, clause in bad:
         names = clause[0][1] if clause and isinstance(clause[0], tuple) else clause
+        if names and all(str(c_).startswith("HELPER-") for c_ in names):
+            # helpers outside the listed properties (polynomial arithmetic, phi, carmichael, order_mod, ...): reported, never an alarm
+            ctx.extra["helper_deviations"] = ctx.extra.get("helper_deviations", 0) + 1
+            if ctx.extra["helper_deviations"] <= 5:
+                ctx.note("beyond-property helper deviates from NTAlg.tla: %s %s" % (names, describe(events[ix])[:300]))
+            continue
         ctx.violation("%s: %s" % (names[:12], describe(events[ix])[:500]), {"event": core.compact(events[ix]), "clauses": names})
+
+
+def helper_events(nt, rnd, quick):
+    """Calls of the helpers that no listed property names (notes only): polynomial arithmetic over F_p, phi, carmichael,
+    order_mod, largest_factor_relatively_prime, kinda_order_mod, modular_exp."""
+    import warnings
+    warnings.simplefilter("ignore")
+    ev = []
+
+    def rec(d, f):
+        try:
+            out = f()
+            d["out"], d["ok"] = ([int(v) for v in out] if isinstance(out, (list, tuple)) else int(out)), True
+        except BaseException:  # noqa
+            d["out"], d["ok"] = 0, False
+        ev.append(d)
+
+    for p in (3, 5, 7, 11, 13, 17, 41, 73, 97, 251) if quick else small_primes(260)[1:]:
+        for _ in range(4 if quick else 12):
+            deg = rnd.choice((1, 2, 2, 3))
+            polymod = [rnd.randrange(p) for _ in range(deg)] + [1]
+            a = [rnd.randrange(p) for _ in range(rnd.randrange(1, 7))]
+            b = [rnd.randrange(p) for _ in range(rnd.randrange(1, 5))]
+            rec({"op": "poly-reduce", "a": list(a), "polymod": list(polymod), "p": p}, lambda: nt.polynomial_reduce_mod(list(a), list(polymod), p))
+            rec({"op": "poly-mul", "a": list(a), "b": list(b), "polymod": list(polymod), "p": p},
+                lambda: nt.polynomial_multiply_mod(list(a), list(b), list(polymod), p))
+            e = rnd.randrange(0, p)
+            base = [rnd.randrange(p) for _ in range(deg)]
+            rec({"op": "poly-exp", "a": list(base), "e": e, "polymod": list(polymod), "p": p},
+                lambda: nt.polynomial_exp_mod(list(base), e, list(polymod), p))
+        # the very call the square root makes: x^((p+1)/2) modulo x^2 - b x + a
+        a_, b_ = rnd.randrange(1, p), rnd.randrange(2, p) if p > 2 else 1
+        rec({"op": "poly-exp", "a": [0, 1], "e": (p + 1) // 2, "polymod": [a_, (-b_) % p, 1], "p": p},
+            lambda: nt.polynomial_exp_mod((0, 1), (p + 1) // 2, (a_, -b_, 1), p))
+    top = 120 if quick else 400
+    for n in range(1, top):
+        rec({"op": "phi", "n": n}, lambda: nt.phi(n))
+        rec({"op": "carmichael", "n": n}, lambda: nt.carmichael(n))
+    import math
+    for m in list(range(2, 40 if quick else 120)) + [251, 256, 257, 1001]:
+        for x in sorted({1, 2, 3, m - 1, rnd.randrange(1, m), rnd.randrange(1, m)}):
+            if math.gcd(x, m) == 1:
+                rec({"op": "order_mod", "x": x, "m": m}, lambda: nt.order_mod(x, m))
+            if x > 1:
+                rec({"op": "kinda_order_mod", "x": x, "m": m}, lambda: nt.kinda_order_mod(x, m))
+            rec({"op": "lfrp", "a": m, "b": x}, lambda: nt.largest_factor_relatively_prime(m, x))
+            rec({"op": "modular_exp", "b": x, "e": rnd.randrange(0, 40), "m": m}, None)
+            d = ev.pop()
+            rec(d, lambda: nt.modular_exp(d["b"], d["e"], d["m"]))
+    return ev
